@@ -63,3 +63,44 @@ pub open spec fn opt_pair_of<T: PartialOrd>(i: Interval<T>) -> (Option<T>, Optio
 //@| requires conf_valid(confidence), T::obeys_partial_cmp_spec(),
 //@| ensures qci_spec(confidence, sorted.len(), quantile) is Err ==> r is Err && r->Err_0 == qci_spec(confidence, sorted.len(), quantile)->Err_0,
 //@|         qci_spec(confidence, sorted.len(), quantile) is Ok ==> elements_at(qci_spec(confidence, sorted.len(), quantile)->Ok_0, sorted@, r),
+
+// ---- the copy-and-sort front-ends (C03: "whatever the data order")
+// ASSUMED specifications of std (trusted, DESIGN 9.3): slice::sort_by leaves a permutation of the slice in which no earlier
+// element compares Greater than a later one -- stated through the comparison closure's own contract, so the closure that the
+// repository passes is checked, not assumed; `iter().copied().collect()` on a Vec of Copy items yields the same sequence.
+pub open spec fn nongreater<T, F: FnMut(&T, &T) -> Ordering>(f: F, a: T, b: T) -> bool {
+    exists|o: Ordering| #[trigger] f.ensures((&a, &b), o) && o != Ordering::Greater
+}
+pub assume_specification<T, F: FnMut(&T, &T) -> Ordering> [<[T]>::sort_by] (s: &mut [T], compare: F)
+    requires forall|a: &T, b: &T| compare.requires((a, b)),
+    ensures final(s)@.to_multiset() == old(s)@.to_multiset(),
+        forall|i: int, j: int| 0 <= i < j < final(s)@.len() ==> nongreater(compare, #[trigger] final(s)@[i], #[trigger] final(s)@[j]);
+#[verifier::external_body]
+pub fn copied_collect<T: Copy>(data: &Vec<T>) -> (r: Vec<T>) ensures r@ == data@ { data.iter().copied().collect() }
+
+// the sample in ascending order: a permutation of the data in which earlier elements are <= later ones
+pub open spec fn ascending<T: PartialOrd>(s: Seq<T>) -> bool { forall|i: int, j: int| 0 <= i < j < s.len() ==> le(#[trigger] s[i], #[trigger] s[j]) }
+pub open spec fn sorted_sample<T: PartialOrd>(s: Seq<T>, data: Seq<T>) -> bool { s.to_multiset() == data.to_multiset() && ascending(s) }
+// what every element-level entry point returns for the ascending sample s (the contract of ci_sorted_unchecked)
+pub open spec fn quantile_ci_of<T: PartialOrd + Clone>(confidence: Confidence, s: Seq<T>, quantile: R, r: CIResult<Interval<T>>) -> bool {
+    &&& qci_spec(confidence, s.len() as usize, quantile) is Err ==> r is Err && r->Err_0 == qci_spec(confidence, s.len() as usize, quantile)->Err_0
+    &&& qci_spec(confidence, s.len() as usize, quantile) is Ok ==> elements_at(qci_spec(confidence, s.len() as usize, quantile)->Ok_0, s, r)
+}
+pub open spec fn comparable<T: PartialOrd>() -> bool {
+    T::obeys_partial_cmp_spec() && forall|a: T, b: T| #[trigger] a.partial_cmp_spec(&b) is Some
+}
+//@freefn src/quantile.rs ci ret r
+//@subst "data.into_iter().copied().collect()" => "copied_collect(data)"
+//@closure 0| (a: &T, b: &T) -> Ordering | ensures Some(r__) == a.partial_cmp_spec(b)
+//@at "ci_sorted_unchecked"| proof { assert(sorted_sample(sorted@, data@)); } // ghost: names the witness of the postcondition's `exists`
+//@| requires conf_valid(confidence), comparable::<T>(),
+//@| ensures exists|s: Seq<T>| #[trigger] sorted_sample(s, data@) && quantile_ci_of(confidence, s, quantile, r),
+// fixed-capacity variant: ArrayVec<T, CAP> is MODELLED by Vec<T> under the documented capacity precondition (collect panics beyond CAP)
+//@freefn src/quantile.rs ci_max_size ret r
+//@subst "use arrayvec::ArrayVec;" => ""
+//@subst "ArrayVec<T, CAP>" => "Vec<T>"
+//@subst "data.into_iter().copied().collect()" => "copied_collect(data)"
+//@closure 0| (a: &T, b: &T) -> Ordering | ensures Some(r__) == a.partial_cmp_spec(b)
+//@at "ci_sorted_unchecked"| proof { assert(sorted_sample(sorted@, data@)); } // ghost: names the witness of the postcondition's `exists`
+//@| requires conf_valid(confidence), comparable::<T>(), data.len() <= CAP,
+//@| ensures exists|s: Seq<T>| #[trigger] sorted_sample(s, data@) && quantile_ci_of(confidence, s, quantile, r),
